@@ -737,8 +737,17 @@ def analyse_entry_points(proj, res):
                     okreset = False
                     break
             qn = h.attrs.get("Qn")
-            if not (isinstance(qn, FieldObj) and qn.copy_of == (f.id, 0)):
+            root = qn
+            hops = 0
+            while isinstance(root, FieldObj) and root.copy_of is not None and root.copy_of[1] == 0 and root.id != f.id and hops < 8:
+                root = h.heap.get(root.copy_of[0])          # a copy of a copy of ... the caller's field, none of them advanced
+                hops += 1
+            if not (isinstance(qn, FieldObj) and isinstance(root, FieldObj) and root.id == f.id and hops >= 1):
                 res.bad("DRV-CALLER-PURE", "%s does not hand the caller's field to _solve" % name, fn.node.lineno, name + "-field")
+                okreset = False
+                break
+            if not (isinstance(qn.time, Lin) and qn.time == Lin.sym("t_f")):
+                res.bad("DRV-RESET", "%s starts the run at time %r, not at the time of the field it is given: a field that carries a time (the result of an earlier run) is advanced over the wrong interval and stamped as if it had covered the right one" % (name, qn.time), fn.node.lineno, name + "-time")
                 okreset = False
                 break
             cfl = [e for e in h.events if e[0] == "setattr" and e[1] == "condition"]
